@@ -130,7 +130,8 @@ def verify (E : J) (T : List J) (S : List Nat) (tamper : Tamper) (hb : Nat) : Op
   | .error _ => none
   | .ok (_, a) =>
     if !(S.all a.found.contains) then none else          -- "disclosure digest not found in SD-JWT"
-    if hb ≥ 2 then none else                              -- wrong nonce / audience / key, or binding required and missing
+    -- 1 and 8: a correct binding; everything else: wrong nonce / audience / key, or binding required and missing
+    if hb ≥ 2 && hb != 8 then none else
     match disclose ⟨T, S, true⟩ fuel E ⟨[], []⟩ with
     | .ok (out, _) => some out
     | .error _ => none
